@@ -11,7 +11,7 @@ import gen, pipeline, model, impl, shex_text, shacl_text, findings as F, oracle
 from props import base
 from shexer import consts as C
 
-PROPS_MODULES = ["ShexerModel.Props.C05", "ShexerModel.Props.C05b", "ShexerModel.Props.GenStr"]
+PROPS_MODULES = ["ShexerModel.Props.C05", "ShexerModel.Props.C05b", "ShexerModel.Props.GenStrShapeName"]
 DEPS = ["S.build_shapes_name_for_class_uri"]
 replay = base.replay
 
